@@ -41,6 +41,13 @@ pub fn write_side(ctx: &mut Ctx, idx: u64) {
     if idx % 7 == 0 {
         e.udp = *g.r.pick(&[0u16, 1, 512, 1232, 4096, 0x7FFF, 0x8000, 0x8001, 65535]);
     }
+    if idx % 40 == 3 {
+        // option data of any length a 16-bit OPTION-LENGTH can express (padding, large cookies / key tags lists)
+        let l = *g.r.pick(&[255usize, 256, 4095, 4096, 4097, 8192, 16383, 16384, 32768, 50_000]);
+        let at = g.r.usize(0, e.opts.len());
+        e.opts.insert(at, (g.r.int(16) as u16, vec![(idx % 251) as u8 + 1; l]));
+        ctx.count("written_with_an_option_of_256_bytes_or_more");
+    }
     // queries carry EDNS (and, through a proxy or a test tool, a 12-bit code) as well: the QR bit is not part of the rule
     let flags = match idx % 4 { 0 => 0x8000, 1 => 0, 2 => 0x0100, _ => 0x8000 | (g.r.int(16) as u16 & 0x07B0) };
     ctx.add(if flags & 0x8000 != 0 { "written_with_qr_set" } else { "written_with_qr_clear" }, 1);
@@ -236,7 +243,13 @@ pub fn run(ctx: &mut Ctx) {
         }
         let mut r = ctx.rng("read", idx);
         let mut g = Gen::new(&mut r, Cfg { share: 50, ..Default::default() });
-        let e = g.edns();
+        let mut e = g.edns();
+        if idx % 40 == 3 {
+            let l = *g.r.pick(&[255usize, 256, 4095, 4096, 4097, 8192, 16383, 16384, 32768, 50_000]);
+            let at = g.r.usize(0, e.opts.len());
+            e.opts.insert(at, (g.r.int(16) as u16, vec![(idx % 251) as u8 + 1; l]));
+            ctx.count("read_with_an_option_of_256_bytes_or_more");
+        }
         let n = g.r.usize(0, 3);
         let others: Vec<RecSem> = (0..n).map(|_| other_record(&mut g)).collect();
         let pos = g.r.usize(0, n);
